@@ -462,3 +462,52 @@ def undone_hand(buckets, hand, swaps, n):
     for b, j in reversed(list(swaps)[:max(n, 0)]):
         hand, t[b][j] = t[b][j], hand
     return hand
+
+
+# ---- counting cuckoo filter (natively evaluated specification: bounded stand-in, see DESIGN) ---------------------
+def cc_counts(s):
+    """fingerprint -> total count over all bins holding it"""
+    out = {}
+    for b in s._buckets:
+        for x in b:
+            out[x.finger] = out.get(x.finger, 0) + x.count
+    return out
+
+
+def cc_bins(s):
+    """fingerprint -> number of bins holding it"""
+    out = {}
+    for b in s._buckets:
+        for x in b:
+            out[x.finger] = out.get(x.finger, 0) + 1
+    return out
+
+
+def cc_fp(s, key):
+    return s._CuckooFilter__hash_func(key) % 2 ** s._fingerprint_size
+
+
+def cc_wellformed(s):
+    """C15 for the counting filter: bucket sizes, placement, no fingerprint in two bins, no bin with count 0,
+    elements_added = sum of counts, unique_elements = number of bins"""
+    cap = s._cuckoo_capacity
+    if cap < 1 or len(s._buckets) != cap:
+        return False
+    for b, bucket in enumerate(s._buckets):
+        if len(bucket) > s._bucket_size:
+            return False
+        for x in bucket:
+            if x.count <= 0:
+                return False
+            if b != x.finger % cap and b != s._CuckooFilter__hash_func(str(x.finger)) % cap:
+                return False
+    return (all(v == 1 for v in cc_bins(s).values()) and s._inserted_elements == sum(cc_counts(s).values())
+            and s._CountingCuckooFilter__unique_elements == sum(cc_bins(s).values()))
+
+
+def dict_plus(d, k, n):
+    out = dict(d)
+    out[k] = out.get(k, 0) + n
+    if out[k] == 0:
+        del out[k]
+    return out
